@@ -12,6 +12,7 @@ const scheduled = false
 func rtGo(f func())     { go f() }
 func rtYield()          { runtime.Gosched() }
 func rtSetFine(on bool) {}
+func rtSetDelay(on bool) {}
 func rtSpawn(f func())  { go f() }
 
 type rtJoiner = sync.WaitGroup
